@@ -3,19 +3,22 @@ package gosym
 import (
 	"fmt"
 	"testing"
+	"time"
 )
 
-func TestDbg(t *testing.T) {
-
-	src := "if 1 > 2 && true {\n\tprint(\"yes\")\n}\n"
-	st := eng.Explore(func(c *Ctx) interface{} {
-		c.FS.AddFile("/work/main.tsh", Conc(src))
-		pp := new(Value)
-		*pp = c.Call(eng.Func("parser", "New"))
-		m := eng.MethodOf("parser", "Parser", "Parse", true)
-		r := c.Call(m, pp, Conc("/work/main.tsh")).(Tuple)
-		fmt.Println(describe(r[0]), describe(r[1]))
-		return nil
-	}, ExploreOpts{Workers: 1})
-	fmt.Println(st.Details)
+func TestLexBytes(t *testing.T) {
+	for n := 1; n <= 2; n++ {
+		t0 := time.Now()
+		st := eng.Explore(func(c *Ctx) interface{} {
+			var segs []Seg
+			for i := 0; i < n; i++ {
+				b := c.B.Var(fmt.Sprintf("b%d", i), 8)
+				c.S.Declare(b)
+				segs = append(segs, Seg{B: b})
+			}
+			c.Tokenize(Str{Segs: segs})
+			return nil
+		}, ExploreOpts{Workers: 8})
+		fmt.Println(n, st.Paths, st.Completed, st.Inconclusive, st.Solver.Queries, time.Since(t0), st.Details)
+	}
 }
